@@ -655,8 +655,23 @@ def r_refcount(db, rep):
                 rep.viol("%s#release-result-dropped:%s" % (f.qn, sp.split("::")[-1]), f.nloc(c),
                          "%s calls %s->unuse() without storing the result back into %s: after the last user the object has deleted itself and "
                          "the static pointer dangles; the next object built or loaded uses freed memory" % (f.qn, sp, sp), f.qn)
-        # owners: classes whose destructor releases sp -> every constructor acquires exactly once
-        owners = {f.rec for f, c in rels if f.is_dtor and f.rec}
+        # owners: classes whose destructor releases sp (directly or through a helper that always does) -> every constructor
+        # acquires exactly once
+        def must_release(g, depth=0):
+            pos = [g.cfg.position(c) for g2, c in rels if g2.id == g.id] if g.cfg is not None else []
+            if depth < 3 and g.cfg is not None:
+                for c in g.calls():
+                    h = db.funcs.get(c.get("f"))
+                    if h is not None and h.body is not None and h.cfg is not None and h.id != g.id and c["k"] in ("CallExpr", "CXXMemberCallExpr") \
+                            and must_release(h, depth + 1):
+                        pos.append(g.cfg.position(c))
+            pos = [p for p in pos if p is not None]
+            return bool(pos) and not g.cfg.path_exists(g.cfg.entry, [g.cfg.exit], avoid=pos)
+        owners = set()
+        for rec_, r_ in db.records.items():
+            for d in db.methods_of(rec_):
+                if d.is_dtor and d.body and d.cfg is not None and must_release(d):
+                    owners.add(rec_)
         for rec in sorted(owners):
             for ctor in db.methods_of(rec):
                 if not ctor.is_ctor or not ctor.body or ctor.cfg is None:
